@@ -271,6 +271,32 @@ func extractC07() *lean {
 			return true
 		})
 	}
+	// senders.go chunkTransactionList: the room expression and the per-transaction size expression; connection_manager.go: the
+	// gRPC options that are given MaxMessageSizeInBytes
+	chunkMax, chunkTx := "MISSING", "MISSING"
+	if fd := funcDecl(senders, "chunkTransactionList"); fd != nil {
+		ast.Inspect(fd, func(n ast.Node) bool {
+			if as, ok := n.(*ast.AssignStmt); ok && len(as.Lhs) == 1 && len(as.Rhs) == 1 {
+				switch exprString(as.Lhs[0]) {
+				case "max":
+					chunkMax = c07Src(as.Rhs[0])
+				case "txSize":
+					chunkTx = c07Src(as.Rhs[0])
+				}
+			}
+			return true
+		})
+	}
+	l.def("chunkMaxExpr", "String", fmt.Sprintf("%q", chunkMax), chunkMax)
+	l.def("chunkTxSizeExpr", "String", fmt.Sprintf("%q", chunkTx), chunkTx)
+	var limitOpts []string
+	ast.Inspect(cm, func(n ast.Node) bool {
+		if c, ok := n.(*ast.CallExpr); ok && len(c.Args) == 1 && exprString(c.Args[0]) == "MaxMessageSizeInBytes" {
+			limitOpts = append(limitOpts, exprString(c.Fun))
+		}
+		return true
+	})
+	l.def("grpcLimitOptions", "List String", leanStrList(limitOpts), limitOpts)
 	l.def("dispatch", "List String", leanStrList(dispatch), dispatch)
 	_, protoF := parseFile("network/transport/v2/protocol.go")
 	listFn := "MISSING"
